@@ -84,6 +84,32 @@ impl<'a> Gen<'a> {
     let rk = if matches!(name, "lt" | "gt" | "gte" | "lte" | "eq" | "neq" | "and" | "or") { "bool" } else { k };
     self.vars.push(Var { name: n, ty: Ty::S(rk), mutable: false });
   }
+  /// a formula with 2-4 operators of one kind in one statement (same level and mixed levels, unparenthesised or partly parenthesised)
+  pub fn chain(&mut self) {
+    let k: &'static str = if self.rng.chance(1, 5) { "bool" } else { "f64" };
+    let n = 2 + self.rng.below(3) as usize;
+    let ops: Vec<&str> = if k == "bool" { vec!["&&", "||", "==", "!="] } else { vec!["+", "-", "*", "/", "-", "/"] };
+    let mut parts: Vec<String> = vec![self.scalar_operand(k)];
+    let mut tagops = String::new();
+    for _ in 0..n { let op = *self.rng.pick(&ops); tagops.push_str(match op { "+" => "a", "-" => "s", "*" => "m", "/" => "d", "&&" => "n", "||" => "o", "==" => "e", _ => "q" }); parts.push(op.to_string()); let o = self.scalar_operand(k); parts.push(o); }
+    // optionally parenthesise one inner pair
+    if self.rng.chance(1, 3) { let i = 2 * (1 + self.rng.below(n as u64 - 1) as usize); parts[i] = format!("({}", parts[i]); parts[i + 2] = format!("{})", parts[i + 2]); tagops.push('p'); }
+    let nme = self.fresh();
+    push!(self, "{} := {}", nme, parts.join(" "));
+    self.tag(&format!("chain-{}-{}", k, n));
+    self.vars.push(Var { name: nme, ty: Ty::S(k), mutable: false });
+  }
+  /// a matrix literal stacked from k rows / k columns of scalars (k = 2..6): one concatenation instruction with k operands
+  pub fn stacked(&mut self) {
+    let k = 2 + self.rng.below(5) as usize;
+    let vert = !self.rowonly && self.rng.chance(1, 2);
+    let two = self.rng.chance(1, 3);
+    let rows: Vec<String> = (0..k).map(|_| if two && vert { format!("{} {}", self.scalar_operand("f64"), self.scalar_operand("f64")) } else { self.scalar_operand("f64") }).collect();
+    let nme = self.fresh();
+    push!(self, "{} := [{}]", nme, rows.join(if vert { "; " } else { " " }));
+    self.tag(&format!("stacked-{}-{}", if vert { "v" } else { "h" }, k));
+    self.vars.push(Var { name: nme, ty: if vert { Ty::M("f64", k, if two { 2 } else { 1 }) } else { Ty::M("f64", 1, k) }, mutable: false });
+  }
   pub fn matrix_binop(&mut self) {
     let ms = self.vars_of(|v| matches!(v.ty, Ty::M(k, _, _) if k == "f64" || k == "u8" || k == "i64"));
     if ms.is_empty() { return; }
@@ -221,7 +247,9 @@ impl<'a> Gen<'a> {
       0..=2 if !self.clean && allow_general => { let ck = *self.rng.pick(&["c64", "r64"]); if self.rng.chance(1, 2) { self.define_scalar_literal(ck) } else { self.binop(ck) } self.prog.restricted = false; }
       0..=14 => self.define_scalar_literal(k),
       15..=27 => { let (r, c) = *self.rng.pick(&[(1usize, 3usize), (3, 1), (2, 2), (2, 3), (3, 3), (1, 1), (4, 1), (1, 4), (4, 2), (5, 1), (2, 5)]); let mk = if self.clean { *self.rng.pick(&["f64", "f64", "bool", "string"]) } else { *self.rng.pick(&["f64", "f64", "f64", "u8", "u8", "i64", "i64", "bool", "bool", "string", "string", "u16", "u32", "u64", "u128", "i8", "i16", "i32", "i128", "f32"]) }; self.define_matrix_literal(mk, r, c) }
-      28..=45 => self.binop(k),
+      28..=33 => self.chain(),
+      34..=36 => self.stacked(),
+      37..=45 => self.binop(k),
       46..=53 => self.matrix_binop(),
       54..=58 => self.unop(),
       59..=64 => if self.clean { self.binop(k) } else { self.range() },
@@ -283,6 +311,8 @@ pub fn construct_sweep(rng: &mut Rng) -> Vec<Prog> {
     for _ in 0..10 { let mut g = Gen::new(rng); g.define_scalar_literal(ck); g.define_scalar_literal(ck); g.binop(ck); g.prog.restricted = false; g.finish(); out.push(g.prog); }
   }
   for _ in 0..8 { let mut g = Gen::new(rng); g.range(); g.finish(); out.push(g.prog); }
+  for _ in 0..40 { let mut g = Gen::new(rng); g.define_scalar_literal("f64"); g.define_scalar_literal("f64"); g.chain(); g.finish(); out.push(g.prog); }
+  for _ in 0..30 { let mut g = Gen::new(rng); g.define_scalar_literal("f64"); g.define_scalar_literal("f64"); g.stacked(); g.finish(); out.push(g.prog); }
   for _ in 0..4 { let mut g = Gen::new(rng); g.define_scalar_literal("f64"); g.vars[0].mutable = true; let s = g.prog.stmts[0].clone(); if !s.starts_with('~') { g.prog.stmts[0] = format!("~{}", s); } g.assign(); out.push(g.prog); }
   for _ in 0..48 { let mut g = Gen::new(rng); g.define_scalar_literal("f64"); g.define_matrix_literal("f64", 2, 2); g.general(); g.finish(); out.push(g.prog); }
   for _ in 0..6 { let mut g = Gen::new(rng); g.define_scalar_literal("f64"); g.define_scalar_literal("bool"); g.define_matrix_literal("f64", 1, 3); g.unop(); g.finish(); out.push(g.prog); }
